@@ -13,6 +13,30 @@ from .common import *
 
 sys.path.insert(0, os.path.join(VERIF, 'translator'))
 from gen_query6 import CLASSES, RELS, CLS_N, REL_N      # one interning table for translator, harness and std_vocab
+import gen_query6 as _gq
+
+
+def _library_vocabulary():
+    """the class / relation strings the library itself defines (CLASS_* / REL_* of the repository under test); any
+    that the interning table does not know yet gets the next free number.  Returns the pairs (short, long) of
+    class names where one CONTAINS the other (a substring test in place of equality confuses exactly those)."""
+    try:
+        consts = _gq.constants(REPO)
+    except Exception:
+        consts = {}
+    for k, v in sorted(consts.items()):
+        if k.startswith('CLASS_') and v not in CLS_N:
+            CLASSES.append(v)
+            CLS_N[v] = len(CLASSES)
+        if k.startswith('REL_') and v not in REL_N:
+            RELS.append(v)
+            REL_N[v] = len(RELS)
+    cp = [(a, b) for a in CLASSES for b in CLASSES if a != b and a in b]
+    rp = [(a, b) for a in RELS for b in RELS if a != b and a in b]
+    return cp, rp
+
+
+CLASS_CONTAINMENT, REL_CONTAINMENT = _library_vocabulary()      # [('Link', 'CompositeLink')], []
 KNOWN_TAG = 'KNOWN-rel2-filter-ineffective'
 
 
@@ -384,7 +408,7 @@ def c_query(q, res):
 
 
 VOCAB = 'std_vocab'
-assert [REL_N['has'], REL_N['connects']] + [CLS_N[c] for c in CLASSES] == [1, 2, 1, 2, 3, 4, 5, 6]   # = Model std_vocab
+assert [REL_N['has'], REL_N['connects']] + [CLS_N[c] for c in CLASSES[:6]] == [1, 2, 1, 2, 3, 4, 5, 6]   # = Model std_vocab
 
 
 def c_store(raw):
@@ -418,6 +442,8 @@ def all_queries(g, classes, rels, other_ids=(), hop_mode='small', cutoffs=(100,)
                 hopsets = [list(h) for k in range(len(ids) + 1) for h in itertools.combinations(ids, k)]
             else:
                 hopsets = [[]] + [[h] for h in ids] + ([ids] if len(ids) > 1 else [])
+            # hop lists with a repeated entry / naming the end nodes (a list, not a set)
+            hopsets = hopsets + [[h, h] for h in ids] + [[a, z, a]]
             for h in hopsets:
                 for co in cutoffs:
                     qs.append(['hops', gid, a, z, h, co])
@@ -438,7 +464,7 @@ def random_graph(rng, gid, n, classes, rels, id_pool, shape):
     elif shape == 'fim':
         # NetworkNode -has- Component -has- NetworkService -connects- ConnectionPoint -connects- Link ...
         order = ['NetworkNode', 'Component', 'NetworkService', 'ConnectionPoint', 'Link', 'ConnectionPoint',
-                 'NetworkService', 'CompositeNode']
+                 'NetworkService', 'CompositeNode', 'ConnectionPoint', 'CompositeLink']
         relof = {('NetworkNode', 'Component'): 'has', ('Component', 'NetworkService'): 'has',
                  ('NetworkNode', 'NetworkService'): 'has', ('CompositeNode', 'NetworkService'): 'has'}
         nodes = [[i, rng.choice(order)] for i in ids]
@@ -502,14 +528,85 @@ def random_case(rng, backend):
                 hops = rng.sample(ids, min(len(ids), rng.choice([0, 0, 1, 1, 2, 3])))
                 if rng.random() < 0.05:
                     hops = hops + [rng.choice(id_pool)]
-                qs.append(['hops', g['gid'], pick(), pick(), hops, rng.choice([100, 100, 100, 200, 0, 1, 2, 3, 4, -1])])
+                ha, hz = pick(), pick()
+                u = rng.random()
+                if u < 0.12 and hops:
+                    hops = hops + [rng.choice(hops)]             # a repeated hop
+                elif u < 0.2:
+                    hops = [ha] + hops + [hz, ha]                # the end nodes named as hops, one of them twice
+                qs.append(['hops', g['gid'], ha, hz, hops, rng.choice([100, 100, 100, 200, 0, 1, 2, 3, 4, -1])])
     case = {'backend': backend, 'graphs': graphs, 'queries': qs}
+    if rng.random() < 0.2:
+        add_chorded_detour(rng, case, id_pool)
+    if CLASS_CONTAINMENT and rng.random() < 0.3:
+        add_containment(rng, case, id_pool)
     if backend == 'joint' and len(graphs) >= 2 and rng.random() < 0.6:
         add_cross(rng, case)
     if rng.random() < 0.05:
         qs.append(['first', 'g7', 'n0', 'has', 'NetworkNode'])      # a graph that is not in the store
         qs.append(['sp', 'g7', 'n0', 'n1', None])
     return case
+
+
+def add_chorded_detour(rng, case, id_pool):
+    """a graph of its own where a path through the hop is disqualified by the loop test (a-h-b-z with the chord
+    a-b) while a chordless path through the hop of the same length or longer exists (a-h-c[-d]-z); the links are
+    added in random order, so that networkx enumerates the disqualified path first in some cases and last in others"""
+    ids = rng.sample(id_pool, 6)
+    a, h, b, z, c, d = ids
+    cls = lambda: rng.choice(CLASSES)
+    rel = lambda: rng.choice(['connects', 'has'])
+    long_detour = rng.random() < 0.5
+    nodes = [[x, cls()] for x in ([a, h, b, z, c, d] if long_detour else [a, h, b, z, c])]
+    links = [[a, h, rel()], [h, b, rel()], [b, z, rel()], [a, b, rel()], [h, c, rel()]]
+    links += [[c, d, rel()], [d, z, rel()]] if long_detour else [[c, z, rel()]]
+    rng.shuffle(nodes)
+    rng.shuffle(links)
+    links = [[y, x, r] if rng.random() < 0.5 else [x, y, r] for x, y, r in links]
+    gid = 'g%d' % len(case['graphs'])
+    case['graphs'].append({'gid': gid, 'nodes': nodes, 'links': links})
+    for s_, t_ in ((a, z), (z, a)):
+        case['queries'].append(['hops', gid, s_, t_, [h], 100])
+        case['queries'].append(['hops', gid, s_, t_, [h, h], 100])
+        case['queries'].append(['hops', gid, s_, t_, [], 100])
+        case['queries'].append(['hops', gid, s_, t_, [h, c], 100])
+        case['queries'].append(['hops', gid, s_, t_, [h], 3])
+    case['queries'].append(['sp', gid, a, z, None])
+
+
+def add_containment(rng, case, id_pool):
+    """class names of the library where one CONTAINS the other (Link / CompositeLink): give one node neighbours of
+    BOTH classes over the SAME relation, each with a further neighbour, and ask for either class on the first and
+    on the second hop (an `in` / startswith / endswith test in place of equality confuses exactly these)"""
+    short, long_ = rng.choice(CLASS_CONTAINMENT)
+    g = rng.choice(case['graphs'])
+    used = set(n[0] for n in g['nodes'])
+    spare = [i for i in id_pool if i not in used]
+    if len(spare) < 4:
+        return
+    x, xc = rng.choice(g['nodes'])
+    a, b, a2, b2 = spare[:4]
+    r, r2 = rng.choice(['connects', 'connects', 'has'] + RELS), rng.choice(['connects', 'has'] + RELS)
+    c2 = rng.choice(['ConnectionPoint', 'ConnectionPoint', short, long_])
+    c2b = c2 if rng.random() < 0.7 else rng.choice([short, long_])
+    g['nodes'] += [[a, short], [b, long_], [a2, c2], [b2, c2b]]
+    g['links'] += [[x, a, r], [x, b, r], [a, a2, r2], [b, b2, r2]]
+    if rng.random() < 0.3:
+        g['links'].append([a, b, r2])
+    gid, qs = g['gid'], case['queries']
+    for c in (short, long_):
+        qs.append(['first', gid, x, r, c])
+        qs.append(['parent', gid, x, r, c])
+        qs.append(['second', gid, x, r, c, r2, c2])
+        qs.append(['second', gid, a2, r2, short, r, xc])
+        qs.append(['second', gid, b2, r2, c, r2, c])
+        for y in (a2, b2):
+            qs.append(['second', gid, y, r2, rng.choice([short, long_]), r, c])
+            qs.append(['first', gid, y, r2, c])
+    for y in (x, a2, b2):
+        qs.append(['peers', gid, y])
+        qs.append(['nodecps', gid, y])
+    qs.append(['sp', gid, a2, b2, None])
 
 
 def add_cross(rng, case):
@@ -555,10 +652,12 @@ def add_cross(rng, case):
             qs.append(['hops', gid, nid, rng.choice(ids), [], 100])
 
 
-def exhaustive_cases(nmax, backend, hop_mode, sorted_classes_from=99):
+def exhaustive_cases(nmax, backend, hop_mode, sorted_classes_from=99, pair_classes=False):
     """every loop-free typed graph with at most nmax nodes over 2 classes x 2 relations, next to a fixed
     foreign graph that reuses the same NodeIDs; every start/end/relation/class/hop choice"""
     classes, rels = ['NetworkService', 'ConnectionPoint'], ['has', 'connects']
+    if CLASS_CONTAINMENT and pair_classes:
+        classes = list(CLASS_CONTAINMENT[0])       # two classes of which one name contains the other
     foreign = {'gid': 'g1', 'nodes': [['n0', 'ConnectionPoint'], ['n1', 'NetworkService'], ['n2', 'ConnectionPoint'], ['n5', 'Link']],
                'links': [['n0', 'n1', 'connects'], ['n1', 'n2', 'has'], ['n2', 'n5', 'connects']]}
     out = []
@@ -647,6 +746,7 @@ class QueryStream(Stream):
     def histogram(self, cases, obs):
         h = {'queries': 0, 'graphs_in_store': {}, 'nodes_in_queried_graph': {}, 'kinds': {}, 'raised': 0,
              'nonempty_results': 0, 'known_finding_hits': 0, 'self_loops': 0, 'backend': {},
+             'nodes_with_neighbours_of_both_classes_of_a_containment_pair': 0, 'queries_for_a_class_of_a_containment_pair': 0,
              'stores_with_cross_graph_edges': 0, 'cross_graph_edges': 0, 'stores_after_merge_nodes': 0}
         for c, o in zip(cases, obs):
             h['queries'] += len(c['queries'])
@@ -657,6 +757,15 @@ class QueryStream(Stream):
                 k = str(len(g['nodes']))
                 h['nodes_in_queried_graph'][k] = h['nodes_in_queried_graph'].get(k, 0) + 1
                 h['self_loops'] += sum(1 for l in g['links'] if l[0] == l[1])
+            pairc = set(x for p_ in CLASS_CONTAINMENT for x in p_)
+            h['queries_for_a_class_of_a_containment_pair'] += sum(1 for q in c['queries'] if any(x in pairc for x in q[2:] if isinstance(x, str)))
+            clsk = {n[0]: n[3] for n in o['raw']['nodes']}
+            nb = {}
+            for a, b, r in o['raw']['edges']:
+                nb.setdefault(a, set()).add((r, clsk.get(b)))
+                nb.setdefault(b, set()).add((r, clsk.get(a)))
+            h['nodes_with_neighbours_of_both_classes_of_a_containment_pair'] += sum(
+                1 for k, v in nb.items() if any((r, sh) in v and (r, lo) in v for r, _ in v for sh, lo in CLASS_CONTAINMENT))
             gof = {n[0]: n[1] for n in o['raw']['nodes']}
             nx_ = sum(1 for a, b, _ in o['raw']['edges'] if gof.get(a) != gof.get(b))
             h['cross_graph_edges'] += nx_
@@ -729,7 +838,10 @@ class RandomStream(QueryStream):
     rule = ('1-3 random typed graphs (1-12 nodes each; tree/sparse/medium/dense/FIM-shaped; overwritten links, self-loops; '
             'NodeIDs shared between graphs) in one store, both in-memory backends; per graph 3 queries of each kind '
             '(first, second, shortest path with and without relation, parent), helpers, path-with-hops on graphs <= 8 nodes; '
-            'a few start nodes / graphs that do not exist; 60% of the shared-store cases with >= 2 graphs hold CROSS-GRAPH edges '
+            'hop lists are LISTS (repeated hops, end nodes named as hops); 20% of the cases add a graph with a chorded short path '
+            'through the hop next to a chordless detour, links inserted in random order; classes drawn from ALL CLASS_* constants of the library; 30% of the cases give one node neighbours of BOTH classes '
+            'of a name-containment pair (Link / CompositeLink, computed from the constants) over the same relation, each with a '
+            'further neighbour, and ask for either class on both hops; a few start nodes / graphs that do not exist; 60% of the shared-store cases with >= 2 graphs hold CROSS-GRAPH edges '
             '(real merge_nodes of a common NodeID and/or edges injected between nodes of two graphs) with extra queries at '
             'their end points for the relation/class of the foreign neighbour; non-trivial = the store has an edge; '
             'distinct by (graphs, merges, cross links, queries)')
@@ -751,15 +863,16 @@ class ExhaustiveStream(QueryStream):
     name = 'exhaustive'
     shard = 40
     rule = ('EVERY loop-free typed graph with <= 3 nodes (quick) / <= 4 nodes (thorough; 4-node graphs up to renaming: class '
-            'vector sorted) over 2 classes x 2 relations, stored next to a foreign graph reusing the same NodeIDs; EVERY '
-            'start/end node, relation (and none), class, hop set (quick: all subsets; 4 nodes: empty, singletons, all) and '
+            'vector sorted) over 2 classes x 2 relations (on the shared store <= 3 nodes the two classes are Link / CompositeLink, the '
+            'library\'s pair of class names where one contains the other), stored next to a foreign graph reusing the same NodeIDs; EVERY '
+            'start/end node, relation (and none), class, hop set (quick: all subsets; 4 nodes: empty, singletons, all; plus every [h,h] and [a,z,a]) and '
             'cutoff in {100,1}; on the shared store every enumerated graph with >= 2 nodes is also joined to the foreign graph '
             'by three cross-graph edges; one case = one graph with all its queries')
 
     def gen(self, rng, tier):
         if tier == 'quick':
-            return exhaustive_cases(3, 'joint', 'all')
-        return (exhaustive_cases(3, 'joint', 'all') + exhaustive_cases(3, 'disjoint', 'all')
+            return exhaustive_cases(3, 'joint', 'all', pair_classes=True)
+        return (exhaustive_cases(3, 'joint', 'all', pair_classes=True) + exhaustive_cases(3, 'disjoint', 'all')
                 + [c for c in exhaustive_cases(4, 'joint', 'small', sorted_classes_from=4) if len(c['graphs'][0]['nodes']) == 4])
 
 
@@ -791,7 +904,8 @@ def run_mutation(imp, objs2, step):
 
 def random_history(rng, backend):
     id_pool = ['n%d' % i for i in range(10)]
-    classes = rng.choice([CLASSES, ['NetworkService', 'ConnectionPoint', 'Link'], ['NetworkNode', 'NetworkService', 'ConnectionPoint']])
+    classes = rng.choice([CLASSES, ['NetworkService', 'ConnectionPoint', 'Link'], ['NetworkNode', 'NetworkService', 'ConnectionPoint'],
+                          ['ConnectionPoint', 'Link', 'CompositeLink']])
     rels = rng.choice([['has', 'connects'], ['has', 'connects', 'depends'], ['connects']])
     ng = rng.choice([1, 2, 2])
     graphs = [random_graph(rng, 'g%d' % gi, rng.choice([2, 3, 4, 4, 5, 6]), classes, rels, id_pool,
